@@ -567,3 +567,147 @@ func shortCallee(c *ssa.CallCommon) string {
 	s = strings.ReplaceAll(s, rootPath+".", "")
 	return s
 }
+
+// ---- struct values field by field --------------------------------------------------
+
+// fsrc is the source of one field of a struct value: either a direct SSA value
+// (Val) or "field Name of the struct value Of" (when the struct came whole
+// from somewhere opaque), or the value the memory at Entry had before any
+// store this analysis saw (Entry != nil).
+type fsrc struct {
+	Val   ssa.Value
+	Of    ssa.Value
+	Entry ssa.Value
+	Name  string
+}
+
+func (s fsrc) String() string {
+	switch {
+	case s.Val != nil:
+		return describe(s.Val)
+	case s.Of != nil:
+		return describe(s.Of) + "." + s.Name
+	case s.Entry != nil:
+		return "entry(" + describe(s.Entry) + ")." + s.Name
+	}
+	return "unknown"
+}
+
+func (s fsrc) same(t fsrc) bool {
+	return s.Val == t.Val && s.Of == t.Of && s.Entry == t.Entry && (s.Val != nil || s.Of != nil || s.Entry != nil)
+}
+
+func structOf(t types.Type) *types.Struct {
+	if p, ok := t.Underlying().(*types.Pointer); ok {
+		t = p.Elem()
+	}
+	st, _ := t.Underlying().(*types.Struct)
+	return st
+}
+
+// fieldsAt computes the per-field sources of the struct stored at addr just
+// before instruction index idx of block b, looking backwards through the
+// single-predecessor chain.
+func fieldsAt(addr ssa.Value, b *ssa.BasicBlock, idx int, depth int) map[string]fsrc {
+	st := structOf(addr.Type())
+	out := map[string]fsrc{}
+	if st == nil || depth > 6 {
+		return out
+	}
+	missing := func() []string {
+		var m []string
+		for i := 0; i < st.NumFields(); i++ {
+			if _, ok := out[st.Field(i).Name()]; !ok {
+				m = append(m, st.Field(i).Name())
+			}
+		}
+		return m
+	}
+	i := idx - 1
+	for {
+		for ; i >= 0; i-- {
+			in := b.Instrs[i]
+			if s, ok := in.(*ssa.Store); ok {
+				if s.Addr == addr {
+					sub := fieldsOfValue(s.Val, depth+1)
+					for _, f := range missing() {
+						if v, ok := sub[f]; ok {
+							out[f] = v
+						} else {
+							out[f] = fsrc{Of: s.Val, Name: f}
+						}
+					}
+					return out
+				}
+				if fa, ok := s.Addr.(*ssa.FieldAddr); ok && fa.X == addr {
+					n := fieldName(fa)
+					if _, done := out[n]; !done {
+						out[n] = fsrc{Val: s.Val}
+					}
+					continue
+				}
+			}
+			if mayWriteCell(in, addr) {
+				for _, f := range missing() {
+					out[f] = fsrc{Name: f}
+				}
+				return out
+			}
+		}
+		if len(b.Preds) == 0 {
+			for _, f := range missing() {
+				out[f] = fsrc{Entry: addr, Name: f}
+			}
+			return out
+		}
+		if len(b.Preds) != 1 {
+			for _, f := range missing() {
+				out[f] = fsrc{Name: f}
+			}
+			return out
+		}
+		b = b.Preds[0]
+		i = len(b.Instrs) - 1
+	}
+}
+
+// fieldsOfValue decomposes a struct-typed value.
+func fieldsOfValue(v ssa.Value, depth int) map[string]fsrc {
+	st := structOf(v.Type())
+	out := map[string]fsrc{}
+	if st == nil {
+		return out
+	}
+	switch x := v.(type) {
+	case *ssa.UnOp:
+		if x.Op == token.MUL {
+			return fieldsAt(x.X, x.Block(), indexIn(x.Block(), x), depth)
+		}
+	case *ssa.Const:
+		for i := 0; i < st.NumFields(); i++ {
+			out[st.Field(i).Name()] = fsrc{Val: ssa.NewConst(nil, st.Field(i).Type())}
+		}
+		return out
+	}
+	for i := 0; i < st.NumFields(); i++ {
+		out[st.Field(i).Name()] = fsrc{Of: v, Name: st.Field(i).Name()}
+	}
+	return out
+}
+
+// convsBack walks backwards from v through value-preserving instructions and
+// arithmetic-free wrappers, collecting the Convert instructions on the way, and
+// returns the origin reached.
+func convsBack(v ssa.Value) ([]*ssa.Convert, ssa.Value) {
+	var cs []*ssa.Convert
+	for i := 0; i < 32; i++ {
+		v = resolve(v)
+		c, ok := v.(*ssa.Convert)
+		if !ok {
+			return cs, v
+		}
+		cs = append(cs, c)
+		v = c.X
+	}
+	return cs, v
+}
